@@ -110,6 +110,10 @@ func TestCheck(t *testing.T) {
 		rep.Inconclusive("type registration failed: " + err.Error())
 		t.Fatalf("register: %v", err)
 	}
+	if err := registerBelow(); err != nil {
+		rep.Inconclusive("type registration failed: " + err.Error())
+		t.Fatalf("register: %v", err)
+	}
 
 	n := int64(cfg.Pick(20000, 1200000))
 	bbEvery := int64(cfg.Pick(10, 25))
@@ -146,6 +150,12 @@ func TestCheck(t *testing.T) {
 	rep.Require("aliased_bb/"+bbOK, 10)
 	rep.Require("cyc/loud-error", 50)
 	rep.Require("cyc_bb/cases", 10)
+	// named pointer types below containers and nil pointers (named_ptr_below_test.go)
+	belowEvery := int64(cfg.Pick(25, 40))
+	rep.Require("below/cases", 500)
+	rep.Require("below/refused-by-Marshal", 200)
+	rep.Require("below/round-tripped", 20)
+	rep.Require("below/checkpoint-cases", 50)
 	if cfg.Shard == 0 {
 		rep.Count("component_io_types", int64(len(componentIOTypes)))
 		for _, x := range componentIO {
@@ -265,6 +275,9 @@ func TestCheck(t *testing.T) {
 			cyclicCase(rep, rng.Sub("cyclic"))
 		}
 		rep.AddEvaluations(roundtrips - before - 1)
+		if idx%belowEvery == 11 {
+			belowCase(rep, rng.Sub("named-pointer-below"))
+		}
 		rep.Count("decode_outcome_depends_on_map_order", orderDependent-odBefore)
 	})
 }
